@@ -15,7 +15,7 @@ InvCounts == Cardinality(HtmlNames) = 113 /\ Cardinality(SvgNames) = 66 /\ Cardi
 InvDefaultByName == \A c, d \in {x \in Calls : x.shape = 1 /\ x.addws = "default"} :
                        c.f = d.f => Expected(c).ws = Expected(d).ws
 InvExpected == LET e == Expected(call) IN
-   /\ (e.exc = "TypeError") = (call.addws \in {"str", "int", "none"})
+   /\ (e.exc = "TypeError") = (call.addws \in {"str", "int", "none"} \/ call.shape \in BadShapes)
    /\ e.exc = "none" => e.name = call.f
 Export == Serialize(ToJson([call |-> call, exp |-> Expected(call)]) \o "\n", IOEnv.EXPORT_FILE,
              [format |-> "TXT", charset |-> "UTF-8", openOptions |-> <<"WRITE", "CREATE", "APPEND">>]).exitValue = 0
